@@ -27,6 +27,20 @@ type RefCase struct {
 	Rendered map[int]bool         // paths referenced at a rendered position
 	Hidden   map[int]bool         // paths referenced only inside elements that render nothing
 	Cgo      bool                 // a preamble exists
+	// AnonThenHint: paths for which an Anon operation is FOLLOWED by a hint operation for the
+	// same path (whatever the hint says, the anonymous import stays unless the path is
+	// referenced at a rendered position).
+	AnonThenHint map[string]bool
+}
+
+// Referenced reports whether path is referenced at a rendered position of the body.
+func (rc *RefCase) Referenced(path string) bool {
+	for i, p := range rc.Paths {
+		if p == path && rc.Rendered[i] {
+			return true
+		}
+	}
+	return false
 }
 
 var refRe = regexp.MustCompile(`^V(\d+)_\d+$`)
@@ -256,6 +270,12 @@ func (rc *RefCase) Resolve(src string) string {
 			}
 			continue
 		}
+		if rc.Anon[s.path] && s.path != "C" && !rc.Referenced(s.path) {
+			// the expected import set is: referenced paths + Anon paths; an Anon path that is
+			// never referenced is imported as `_`, whatever hints name it and whenever they
+			// were given ("C" is written without the underscore by design)
+			return fmt.Sprintf("path %q was given to Anon and is never referenced, but it is imported as %q instead of _", s.path, s.name)
+		}
 		if s.path == "C" && rc.Cgo {
 			continue // a preamble counts as the user adding "C"
 		}
@@ -314,8 +334,22 @@ func (rc *RefCase) QualifierMap(src string) (map[string]string, error) {
 // BuildRefCase assembles setup + body + render into a history and the bookkeeping the
 // oracle needs. setup must only contain file-level ops for file 0.
 func BuildRefCase(r *rand.Rand, paths []string, setup hist.History, local string, refs, hidden []int) (*RefCase, hist.History) {
-	rc := &RefCase{Paths: paths, Local: local, Anon: map[string]bool{}, Hints: map[string][2]string{}, Rendered: map[int]bool{}, Hidden: map[int]bool{}}
+	rc := &RefCase{Paths: paths, Local: local, Anon: map[string]bool{}, Hints: map[string][2]string{}, Rendered: map[int]bool{}, Hidden: map[int]bool{}, AnonThenHint: map[string]bool{}}
 	for _, op := range setup {
+		// bookkeeping does not depend on the relative order of Anon and the hints: Anon is the
+		// set of all paths ever given to Anon, Hints the LAST hint of each path
+		switch op.Kind {
+		case "importname", "importalias":
+			if rc.Anon[op.A] {
+				rc.AnonThenHint[op.A] = true
+			}
+		case "importnames":
+			for _, p := range op.Pairs {
+				if rc.Anon[p[0]] {
+					rc.AnonThenHint[p[0]] = true
+				}
+			}
+		}
 		switch op.Kind {
 		case "prefix":
 			rc.Prefix = op.A
